@@ -1355,6 +1355,32 @@ SPECS = [
          env={"new_config": ("new_config", "cfg")},
          state={"installed": ("installed", "cfg")}, state_names={"installed": "installed"},
          stmt_calls={"self._handler.new_config": dict(fn="gen_handler_new_config {installed}", updates=["installed"], args=["cfg"])}),
+    # ---- one poll: what is sent, and what the answer does to the service's state (C12)
+    dict(group="Poll", name="gen_poll", path="poll/poll.py", cls="LongPoll", func="poll",
+         params="(polled : cfg) (hash : option nat) (last_update : Z) (pending : list task) (now : Z) (no_change : Z) "
+                "(answer : option nat -> (Z * Z) * (nat * cfg))",
+         ret="cfg * option nat * Z * list task", args=["self"], falls_off=True,
+         env={"self.grpc.channel": ("tt", "unit"), "self.config.resource": ("tt", "unit"),
+              "self.config.tracepoints.current_hash": ("{svc.hash}", "option nat"),
+              "ResponseType.NO_CHANGE": ("no_change", "Z"),
+              "response.response_type": ("(fst (fst {response}))", "Z"), "response.ts_nanos": ("(snd (fst {response}))", "Z"),
+              "response.current_hash": ("(fst (snd {response}))", "nat"), "response.response": ("(snd (snd {response}))", "cfg")},
+         calls={"PollConfigStub": ("(fun _ : unit => tt)", ["unit"], "unit"), "time_ns": ("now", [], "Z"),
+                "convert_resource": ("(fun _ : unit => tt)", ["unit"], "unit"), "self.grpc.metadata": ("tt", [], "unit"),
+                "convert_response": ("(fun c : cfg => c)", ["cfg"], "cfg")},
+         kwcalls={"PollRequest": ("(fun (_ : Z) (h : option nat) (_ : unit) => h)", ["ts_nanos", "current_hash", "resource"],
+                                  ["Z", "option nat", "unit"], "option nat"),
+                  "stub.poll": ("(fun (r : option nat) (_ : unit) => answer r)", ["request", "metadata"], ["option nat", "unit"],
+                                "((Z * Z) * (nat * cfg))")},
+         state={"svc.polled": ("polled", "cfg"), "svc.hash": ("hash", "option nat"), "svc.last_update": ("last_update", "Z"),
+                "pending": ("pending", "list task")},
+         state_names={"svc.polled": "polled", "svc.hash": "hash", "svc.last_update": "last_update", "pending": "pending"},
+         stmt_calls={"self.config.tracepoints.update_no_change": dict(fn="gen_update_no_change {svc.last_update}", args=["Z"],
+                                                                      updates=["svc.last_update"]),
+                     "self.config.tracepoints.update_new_config": dict(
+                         fn="gen_update_new_config {svc.polled} {svc.hash} {svc.last_update} {pending}", args=["Z", "nat", "cfg"],
+                         updates=["svc.polled", "svc.hash", "svc.last_update", "pending"])},
+         noop_calls=["logging.debug"]),
     # ---- the traversal: the work-list loop and what it does with one node (C05)
     dict(group="Collect", name="gen_bfs_iter", path="processor/bfs/__init__.py", cls=None, func="breadth_first_search",
          params="{N S : Type} (consumer : N -> list N -> S -> (list N * S) * bool) (children_of : N -> list N) (queue : list N) (s : S)",
@@ -1558,6 +1584,7 @@ GROUPS = {           # generated file -> (imports, which properties' theorems ar
     "Line": ("From Deep Require Import Base PureSupport.", ["C08"]),
     "Service": ("From Deep Require Import Base ConfigSvc PureSupport.", ["C12", "C13"]),
     "Registry": ("From Deep Require Import Base ConfigSvc PureSupport.\nFrom DeepGen Require Import PService.", ["C13"]),
+    "Poll": ("From Deep Require Import Base ConfigSvc PureSupport.\nFrom DeepGen Require Import PService.", ["C12"]),
     "Callbacks": ("From Deep Require Import Base PureSupport.", ["C15"]),
     "Metrics": ("From Deep Require Import Base Config PureSupport.", ["C17"]),
     "Spans": ("From Deep Require Import Base PureSupport.", ["C20"]),
